@@ -206,13 +206,20 @@ theorem preW_close (W : List Bytes) (e : EncState) : (preW W e).close = (e.close
 
 /-! ## what the scripted writer holds -/
 
+/-- a successful write appends the slice; a failing one appends the part it accepted -/
 theorem wr_write_bytes (w : Wr) (p : Bytes) :
-    (w.write p).2.bytes = if (w.write p).1 then w.bytes ++ p else w.bytes := by
+    ∃ q, q <+: p ∧ (w.write p).2.bytes = w.bytes ++ (if (w.write p).1 then p else q) := by
   cases h : w.write p with
   | mk ok w' =>
     cases ok with
-    | true => simpa using wr_obs.ok w p w' h
-    | false => simpa using wr_obs.fail w p w' h
+    | true => exact ⟨[], List.nil_prefix, by simpa using wr_obs.ok w p w' h⟩
+    | false =>
+      obtain ⟨q, hq, ho⟩ := wr_obs.fail w p w' h
+      exact ⟨q, hq, by simpa using ho⟩
+
+theorem prefix_mid {α : Type} (a q p r : List α) (h : q <+: p) : a ++ q <+: a ++ p ++ r := by
+  rw [List.append_assoc]
+  exact (List.prefix_append_right_inj a).2 (h.trans (List.prefix_append _ _))
 
 /-! ## `ArmState`: the output only grows -/
 
@@ -313,7 +320,7 @@ theorem sim_spaceOut : ∀ (fuel : Nat) (a : FArm) (s : ArmState), Sim a s →
       have hmono := arm_spaceOut_mono fuel (armStep s)
       cases hw1 : a.w.write (a.buf.take a.par.bytesPerWord) with
       | mk ok1 w1 =>
-        have hb1 := wr_write_bytes a.w (a.buf.take a.par.bytesPerWord)
+        obtain ⟨q1, hq1, hb1⟩ := wr_write_bytes a.w (a.buf.take a.par.bytesPerWord)
         rw [hw1] at hb1
         simp only [hw1] at hres
         cases ok1 with
@@ -325,13 +332,13 @@ theorem sim_spaceOut : ∀ (fuel : Nat) (a : FArm) (s : ArmState), Sim a s →
           simp only [Bool.false_eq_true, if_false] at hb1
           rw [hb1, h.out]
           refine List.IsPrefix.trans ?_ hmono
-          rw [hs1out, List.append_assoc]
-          exact List.prefix_append _ _
+          rw [hs1out]
+          exact prefix_mid _ _ _ _ hq1
         | true =>
           simp only [if_true] at hres hb1
           cases hw2 : w1.write [if (a.nWords + 1) % a.par.wordsPerLine = 0 then Armor.newline else Armor.space] with
           | mk ok2 w2 =>
-            have hb2 := wr_write_bytes w1 [if (a.nWords + 1) % a.par.wordsPerLine = 0 then Armor.newline else Armor.space]
+            obtain ⟨q2, hq2, hb2⟩ := wr_write_bytes w1 [if (a.nWords + 1) % a.par.wordsPerLine = 0 then Armor.newline else Armor.space]
             rw [hw2] at hb2
             simp only [hw2] at hres
             cases ok2 with
@@ -344,7 +351,7 @@ theorem sim_spaceOut : ∀ (fuel : Nat) (a : FArm) (s : ArmState), Sim a s →
               rw [hb2, hb1, h.out]
               refine List.IsPrefix.trans ?_ hmono
               rw [hs1out]
-              exact List.prefix_append _ _
+              exact (List.prefix_append_right_inj _).2 hq2
             | true =>
               simp only [if_true] at hres hb2
               rw [← hres]
@@ -424,20 +431,20 @@ theorem sim_close (a : FArm) (s : ArmState) (h : Sim a s) (hok : a.EncOk) (hf : 
       rw [← h1, ← h2, ← h3, ← h4, ← h5]
       cases hw1 : s2.w.write s2.buf with
       | mk ok1 w1 =>
-        have hb1 := wr_write_bytes s2.w s2.buf
+        obtain ⟨q1, hq1, hb1⟩ := wr_write_bytes s2.w s2.buf
         rw [hw1] at hb1
         cases ok1 with
         | false =>
           simp only [Bool.false_eq_true, if_false] at hb1 ⊢
           refine ⟨fun hh => (by cases hh), ?_⟩
-          rw [hb1, List.append_assoc]
-          exact List.prefix_append _ _
+          rw [hb1]
+          exact prefix_mid _ _ _ _ hq1
         | true =>
           simp only [if_true] at hb1 ⊢
           generalize hft : ((if s2.buf.length = s2.par.bytesPerWord then
               (if (s2.nWords + 1) % s2.par.wordsPerLine = 0 then [Armor.newline] else [Armor.space]) else []) ++
               [Armor.period, Armor.space] ++ s2.ftr ++ [Armor.period, Armor.newline] : Bytes) = tail
-          have hb2 := wr_write_bytes w1 tail
+          obtain ⟨q2, hq2, hb2⟩ := wr_write_bytes w1 tail
           cases hw2 : w1.write tail with
           | mk ok2 w2 =>
             rw [hw2] at hb2
@@ -446,7 +453,7 @@ theorem sim_close (a : FArm) (s : ArmState) (h : Sim a s) (hok : a.EncOk) (hf : 
               simp only [Bool.false_eq_true, if_false] at hb2 ⊢
               refine ⟨fun hh => (by cases hh), ?_⟩
               rw [hb2, hb1]
-              exact List.prefix_append _ _
+              exact (List.prefix_append_right_inj _).2 hq2
             | true =>
               simp only [if_true] at hb2 ⊢
               rw [hb2, hb1]
@@ -512,15 +519,15 @@ theorem run_sim : ∀ (ws : List Bytes) (a : FArm) (s : ArmState), Sim a s → a
       refine ⟨fun hh => ?_, w2.trans (arm_fold_mono ws _)⟩
       rw [hflag] at hh; cases hh
 
-theorem farm_init_sim (par : Armor.Params) (hdr ftr : Bytes) (sink : Stream.Sink)
-    (hi : (FArm.init par hdr ftr ({ sink := sink } : Wr)).1 = true) :
-    Sim (FArm.init par hdr ftr ({ sink := sink } : Wr)).2 (ArmState.init par hdr ftr) ∧
-    (FArm.init par hdr ftr ({ sink := sink } : Wr)).2.failed = false ∧
-    (FArm.init par hdr ftr ({ sink := sink } : Wr)).2.w.faults = 0 := by
-  have hb := wr_write_bytes ({ sink := sink } : Wr) (hdr ++ [Armor.period, Armor.space])
-  have hf := wr_write_faults ({ sink := sink } : Wr) (hdr ++ [Armor.period, Armor.space])
+theorem farm_init_sim (par : Armor.Params) (hdr ftr : Bytes) (sink : Stream.Sink) (part : List Nat)
+    (hi : (FArm.init par hdr ftr ({ sink := sink, part := part } : Wr)).1 = true) :
+    Sim (FArm.init par hdr ftr ({ sink := sink, part := part } : Wr)).2 (ArmState.init par hdr ftr) ∧
+    (FArm.init par hdr ftr ({ sink := sink, part := part } : Wr)).2.failed = false ∧
+    (FArm.init par hdr ftr ({ sink := sink, part := part } : Wr)).2.w.faults = 0 := by
+  obtain ⟨_, _, hb⟩ := wr_write_bytes ({ sink := sink, part := part } : Wr) (hdr ++ [Armor.period, Armor.space])
+  have hf := wr_write_faults ({ sink := sink, part := part } : Wr) (hdr ++ [Armor.period, Armor.space])
   unfold FArm.init at hi ⊢
-  cases hw : ({ sink := sink } : Wr).write (hdr ++ [Armor.period, Armor.space]) with
+  cases hw : ({ sink := sink, part := part } : Wr).write (hdr ++ [Armor.period, Armor.space]) with
   | mk ok w' =>
     rw [hw] at hb hf hi
     simp only at hi
@@ -539,17 +546,17 @@ theorem farm_init_sim (par : Armor.Params) (hdr ftr : Bytes) (sink : Stream.Sink
     ever failed and the writer holds exactly the armored text of everything
     passed to `Write`; and whatever happened the writer holds a prefix of it -/
 theorem farm_run_close (par : Armor.Params) (he : par.enc.WF) (hw : 0 < par.bytesPerWord) (hdr ftr : Bytes)
-    (sink : Stream.Sink) (ws : List Bytes) (hi : (FArm.init par hdr ftr ({ sink := sink } : Wr)).1 = true) :
-    ((farmRun (FArm.init par hdr ftr ({ sink := sink } : Wr)).2 ws).close.1 = true →
-      (farmRun (FArm.init par hdr ftr ({ sink := sink } : Wr)).2 ws).close.2.w.faults = 0 ∧
-      (farmRun (FArm.init par hdr ftr ({ sink := sink } : Wr)).2 ws).close.2.w.bytes =
+    (sink : Stream.Sink) (part : List Nat) (ws : List Bytes) (hi : (FArm.init par hdr ftr ({ sink := sink, part := part } : Wr)).1 = true) :
+    ((farmRun (FArm.init par hdr ftr ({ sink := sink, part := part } : Wr)).2 ws).close.1 = true →
+      (farmRun (FArm.init par hdr ftr ({ sink := sink, part := part } : Wr)).2 ws).close.2.w.faults = 0 ∧
+      (farmRun (FArm.init par hdr ftr ({ sink := sink, part := part } : Wr)).2 ws).close.2.w.bytes =
         Armor.sealText par hdr ftr ws.flatten) ∧
-    (farmRun (FArm.init par hdr ftr ({ sink := sink } : Wr)).2 ws).close.2.w.bytes <+:
+    (farmRun (FArm.init par hdr ftr ({ sink := sink, part := part } : Wr)).2 ws).close.2.w.bytes <+:
       Armor.sealText par hdr ftr ws.flatten := by
-  obtain ⟨hs, hf, h0⟩ := farm_init_sim par hdr ftr sink hi
+  obtain ⟨hs, hf, h0⟩ := farm_init_sim par hdr ftr sink part hi
   obtain ⟨r1, r2⟩ := run_sim ws _ _ hs (farm_encOk_init par hdr ftr _) hf
   rw [← armorWriter_any_split par he hw hdr ftr ws]
-  generalize farmRun (FArm.init par hdr ftr ({ sink := sink } : Wr)).2 ws = a at r1 r2 ⊢
+  generalize farmRun (FArm.init par hdr ftr ({ sink := sink, part := part } : Wr)).2 ws = a at r1 r2 ⊢
   generalize ws.foldl ArmState.write (ArmState.init par hdr ftr) = s at r1 r2 ⊢
   cases hfa : a.failed with
   | true =>
@@ -684,9 +691,9 @@ theorem farm_calls_fault_flag (f0 : Nat) : ∀ (ops : List (Option Bytes)) (a : 
 
 /-- before `Close` too: after any `Write`s the writer holds a prefix of the complete text -/
 theorem farm_run_prefix (par : Armor.Params) (he : par.enc.WF) (hw : 0 < par.bytesPerWord) (hdr ftr : Bytes)
-    (sink : Stream.Sink) (ws : List Bytes) (hi : (FArm.init par hdr ftr ({ sink := sink } : Wr)).1 = true) :
-    (farmRun (FArm.init par hdr ftr ({ sink := sink } : Wr)).2 ws).w.bytes <+: Armor.sealText par hdr ftr ws.flatten := by
-  obtain ⟨hs, hf, _⟩ := farm_init_sim par hdr ftr sink hi
+    (sink : Stream.Sink) (part : List Nat) (ws : List Bytes) (hi : (FArm.init par hdr ftr ({ sink := sink, part := part } : Wr)).1 = true) :
+    (farmRun (FArm.init par hdr ftr ({ sink := sink, part := part } : Wr)).2 ws).w.bytes <+: Armor.sealText par hdr ftr ws.flatten := by
+  obtain ⟨hs, hf, _⟩ := farm_init_sim par hdr ftr sink part hi
   obtain ⟨_, r2⟩ := run_sim ws _ _ hs (farm_encOk_init par hdr ftr _) hf
   rw [← armorWriter_any_split par he hw hdr ftr ws]
   exact r2.trans (arm_close_mono _)
